@@ -93,7 +93,8 @@ EXTRA = {
  "C05": TABLES.format(what="status / version tables, default server identity, Allow delimiter and writer literals") +
         " Moreover the writer functions of response.rs (StatusLine::write_all, ResponseHeaders::{write_allow_header, write_deprecation_header, write_all}, Response::{write_body, write_all}) are translated "
         "statement by statement into a Lean function and Tables.response_writer proves it equal to the model's piece list for EVERY response.",
- "C10": TABLES.format(what="MAX_CONNECTIONS, the equality form of the capacity test and the 503 literal"),
+ "C10": TABLES.format(what="MAX_CONNECTIONS, the equality form of the capacity test and the 503 literal") +
+        " The one-step invariant theorems are lifted to whole histories (Props/C10History.lean): history_inv / reachable — after EVERY admissible sequence of polls, respond, enqueue_responses (respondMany_inv: never Underflow), flush, set_payload_max_size and add_kill_switch from a new server there are at most 10 connections, distinct descriptors and identities, live tokens and exact in-flight counts.",
  "C15": TABLES.format(what="recognised header names (canonical and the lower-case keys Header::try_from matches) and media-type spellings") +
         " The header rules are also written out in Rust from the property text (rule_block) and evaluated on every generated block, so a divergence comes with a concrete failing block.",
  "C16": TABLES.format(what="method / version / media-type / status tables (both directions) and HTTP_SCHEME_PREFIX"),
